@@ -9,6 +9,8 @@ import (
 	"context"
 	"errors"
 	"fmt"
+	"io"
+	"log"
 	"net/http"
 	"net/url"
 	"reflect"
@@ -724,5 +726,8 @@ func pathSig(p string) string {
 }
 
 func TestS4(t *testing.T) {
+	// the server logs recovered panics through the standard logger: a write(2) to stderr in the middle of a run is
+	// a blocking system call, and what the scheduler does around one depends on real time (back end B)
+	log.SetOutput(io.Discard)
 	harness.Main(t, map[string]harness.Scenario{"rpc": rpc, "tunnel": tunnel, "canon": canon})
 }
